@@ -131,6 +131,15 @@ func NumberPool() []NumCase {
 	add(cty.NumberVal(pow2(-1100)), "beyond-float64-exponent", false)
 	add(cty.NumberVal(new(big.Float).SetPrec(512).Mul(pow2(-1080), big.NewFloat(3))), "beyond-float64-exponent", false)
 	add(cty.NumberVal(new(big.Float).SetPrec(512).Mul(pow2(-1076), big.NewFloat(-3))), "beyond-float64-exponent", false)
+	// the same at 53 bits of PRECISION (not only a short mantissa): what arithmetic on float64-made numbers yields
+	mf, tiny := cty.NumberFloatVal(math.MaxFloat64), cty.NumberFloatVal(math.SmallestNonzeroFloat64)
+	add(mf.Add(mf), "beyond-float64-exponent", false)
+	add(mf.Multiply(cty.NumberFloatVal(4)), "beyond-float64-exponent", false)
+	add(mf.Multiply(cty.NumberFloatVal(-3)), "beyond-float64-exponent", false)
+	add(tiny.Divide(cty.NumberFloatVal(2)), "beyond-float64-exponent", false)
+	add(tiny.Divide(cty.NumberFloatVal(-8)), "beyond-float64-exponent", false)
+	add(cty.NumberVal(new(big.Float).SetPrec(53).SetMantExp(big.NewFloat(1.5), 2000)), "beyond-float64-exponent", false)
+	add(cty.NumberVal(new(big.Float).SetPrec(53).SetMantExp(big.NewFloat(1.5), -2000)), "beyond-float64-exponent", false)
 	numberPool = p
 	return p
 }
